@@ -392,7 +392,8 @@ SCALARS = [
     ('unsigned long long', 'l', 'l'), ('float', 's', 'd'), ('double', 'd', 'd'), ('int *', 'l', 'l'), ('void *', 'l', 'l'), ('const char *const', 'l', 'l'),
     ('sfn *', 'l', 'l'), ('sfn', 'l', 'l'), ('sarr', 'l', 'l'), ('struct sinc *', 'l', 'l'), ('int (*)[3]', 'l', 'l'), ('sarr *', 'l', 'l'), ('__builtin_va_list *', 'l', 'l'),
 ]
-SCALAR_PRE = 'enum se { SE0, SE1 }; enum sel { SEL0 = 0x100000000 }; typedef int sfn(int); typedef int sarr[3]; struct sinc;\nint sv(int, ...);\n'
+SCALAR_PRE = ('enum se { SE0, SE1 }; enum sel { SEL0 = 0x100000000 }; typedef int sfn(int); typedef int sarr[3]; struct sinc;\nint sv(int, ...);\n'
+              'int sv0(...); struct svo { int (*log)(...); int (*fmt)(int, ...); };\n')
 
 
 def scalar_signatures(chk):
@@ -407,6 +408,7 @@ def scalar_signatures(chk):
         src.append('%s sk%d(long pad, %s a) { (void)a; return sd%d(a); }\n' % (ret, i, ty, i))         # definition + prototyped call
         src.append('%s sp%d(%s (*fp)(%s), %s a) { return fp(a); }\n' % (ret, i, ret, ty, ty))          # call through a pointer
         src.append('int sq%d(%s a) { return sv(1, a); }\n' % (i, ty))                                  # variable argument: promoted class
+        src.append('int sz%d(%s a, struct svo *o, int (**pp)(...)) { return sv0(a) + sv0() + o->log(a, 2) + (**pp)(a) + o->fmt(3, a); }\n' % (i, ty))   # no named parameter at all
     unit = ''.join(src)
     n = 0
     srv = fs.server('fs')
@@ -449,6 +451,16 @@ def scalar_signatures(chk):
                 if len(c) != 1 or [a[0] for a in c[0].callargs] != ['w', pcls] or c[0].vararg_at != 1:
                     probs.append('variable argument passed as %r (marker at %r), expected [w, %s] with the marker after the first' % (
                         [a[0] for a in c[0].callargs] if c else None, c[0].vararg_at if c else None, pcls))
+            z = fn.get('$sz%d' % i)
+            if z is not None:
+                n += 1
+                c = calls(z)
+                shape = [([a[0] for a in x.callargs], x.vararg_at) for x in c]
+                want = [([pcls], 0), ([], 0), ([pcls, 'w'], 0), ([pcls], 0), (['w', pcls], 1)]
+                if shape != want:
+                    probs.append('calls of functions without named parameters are %r, expected %r (argument classes, position of the variadic marker)' % (shape, want))
+            else:
+                probs.append('definition sz%d missing' % i)
             for pr in probs:
                 chk.violation('signature/scalar-class/%s' % ty.replace(' ', '-'), 'type %s on %s: %s' % (ty, t, pr), files={'input.c': unit.encode()},
                               cmd='$CPROC_QBE -t %s input.c | grep -n "s[kpq]%d"' % (t, i))
